@@ -230,6 +230,10 @@ Inductive pevent :=
 | Pasv (i : nat) (legacy : bool)            (* PASV (legacy = true) or EPSV: same port logic, different reply on IPv6 *)
 | Resume (i k : nat) (o : outcome)          (* the k-th start-up in flight of session i continues *)
 | Work (i : nat)                            (* any other command / transfer: does not touch the pool *)
+| ReUser (i : nat)                          (* USER again (re-login) on a session that may own a listener: Server.user
+                                               touches neither passive_server nor passive_server_port nor the pool
+                                               (check_pframe on Gen.Dispatch.handlers is the structural guard): the
+                                               listener and its port stay with the session *)
 | End_ (i : nat)                            (* QUIT, peer gone, timeout, handler error: the finally runs *)
 | CloseAll.                                 (* Server.close() *)
 
@@ -340,6 +344,7 @@ Definition pstep (cfg : pconfig) (st : pstate) (e : pevent) : pstate * list pout
       | None => (st, [])
       end
   | Work i => (st, [])
+  | ReUser i => (st, [])
   | End_ i => (end_psess cfg i st, [])
   | CloseAll => (end_all cfg (List.length (pp_sess st)) st, [])
   end.
@@ -505,6 +510,7 @@ Definition pevent_of_sx (s : sx) : pevent :=
   | 3 => Work i
   | 4 => End_ i
   | 5 => CloseAll
+  | 6 => ReUser i
   | _ => Work i
   end.
 
